@@ -109,7 +109,7 @@ def gen_history(rnd, sid, nedges, nsteps, feat=None, faults=0.0, wf_reads=True, 
         elif r < 0.75 and ne:
             e = rnd.choice(ne); e.ver += 1; h.rewrite_manifest()
         elif r < 0.8:
-            es = [e for e in ne if e.rsp]
+            es = [e for e in ne if e.rsp and not e.rsp_empty]
             if es: e = rnd.choice(es); e.rspver += 1; h.rewrite_manifest()
         elif r < 0.9:
             es = [e for e in ne if (e.deps or e.depfile) and any(x in h.sources for x in e.exp)]
@@ -350,6 +350,30 @@ def motif_deps_swap(rnd, sid):
     h.build(rnd, None, j=1, k=1, sched=rand_sched(rnd, 8))
     h.edit('b.h', 'new-text-%d' % rnd.randrange(1000))
     st = h.build(rnd, None, j=1, k=1, sched=rand_sched(rnd, 8))
+    h.add(Step('build', st.line, g=st.g, sources=st.sources, targets=st.targets, opts=st.opts, repeat=True))
+    return h
+
+def motif_dyndep_rescan_deps_missing(rnd, sid):
+    """a statement that is dirty only because its deps-log record is missing (the scan's first visit), re-scanned after a
+    mid-build dyndep load (the second visit does not reload deps and finds it clean by itself): it must stay "not ready"
+    until it has run -- its dependent, which has a second dirty input, must not start while it is still running"""
+    g = engine.Graph(); g.sources = {'ddin': 'd.0', 'xin': 'x.0', 'gin': 'g.0', 'hdr': 'h.0'}
+    de = engine.Edge(900); de.outs = ['dd']; de.exp = ['ddin']
+    xe = engine.Edge(1); xe.outs = ['x']; xe.exp = ['xin']; xe.dyndep = 'dd'
+    if rnd.random() < 0.5: xe.oo = ['dd']
+    else: xe.imp = ['dd']
+    ee = engine.Edge(2); ee.outs = ['e.o']; ee.exp = ['x']; ee.deps = rnd.choice(['gcc', 'msvc']); ee.hidden = ['hdr'] if rnd.random() < 0.6 else []
+    if ee.deps == 'gcc': ee.depfile = 'e.o.d'
+    ge = engine.Edge(3); ge.outs = ['g']; ge.exp = ['gin']
+    fe = engine.Edge(4); fe.outs = ['f']; fe.exp = ['e.o', 'g']
+    g.edges = [de, xe, ee, ge, fe]
+    g.dd_info['dd'] = {'x': ([], [], False)}
+    g.ddtext['dd'] = engine.dd_text(g.dd_info['dd'])
+    h = Hist(sid, g)
+    h.build(rnd, ['f'], j=rnd.choice([1, 3]), k=1, sched=rand_sched(rnd, 12))
+    h.add(Step('dropdeps', 'step dropdeps')); h.tags.add('dropdeps')
+    h.edit('ddin', 'd.%d' % rnd.randrange(1, 1000)); h.edit('gin', 'g.%d' % rnd.randrange(1, 1000))
+    st = h.build(rnd, ['f'], j=rnd.choice([2, 3, 4]), k=1, sched=rand_sched(rnd, 12))
     h.add(Step('build', st.line, g=st.g, sources=st.sources, targets=st.targets, opts=st.opts, repeat=True))
     return h
 
@@ -747,7 +771,7 @@ def gen_minimality_history(rnd, sid, feat=None):
         elif r < 0.9 and ne:
             e = rnd.choice(ne); e.ver += 1; h.rewrite_manifest(); ch = ('cmd', e.idx)
         else:
-            es = [e for e in ne if e.rsp]
+            es = [e for e in ne if e.rsp and not e.rsp_empty]
             if not es: continue
             e = rnd.choice(es); e.rspver += 1; h.rewrite_manifest(); ch = ('cmd', e.idx)
         full(ch)
